@@ -34,6 +34,10 @@ func genC15(r *rt.Rand, tier string, idx int) *world.Scenario {
 		sc.Extra["standby"] = 1 // the second node campaigns from the start (fail-over) instead of after the crash (restart)
 		sc.Class = "leader-crash-with-standby"
 	}
+	if sc.Extra["standby"] == 0 && r.Chance(0.3) {
+		sc.Extra["drop_lock"] = 1
+		sc.Class += "+election-record-removed"
+	}
 	keys := []string{prefix + "/a", prefix + "/b", prefix + "/a/b", prefix + "/pods/ns/p1"}
 	var cl world.Client
 	n := 4 + r.Intn(26)
@@ -152,6 +156,13 @@ func c15Custom(t *testing.T, sc *world.Scenario, out *Outcome) {
 	if !s.NodeDead(0) {
 		out.Infra = "old leader did not stop"
 		return
+	}
+	if sc.Extra["drop_lock"] != 0 && sc.Extra["standby"] == 0 {
+		// the election record is gone while the data is there (removed to force an election, or data restored
+		// without it): the next leader comes to power through the lock's Create path
+		if err := w.KV.Inner.Del(context.Background(), w.KV.LockKey); err == nil {
+			out.probe("election-record-removed-before-restart")
+		}
 	}
 	// everything the old leader left in the store
 	mBefore := model.FromGT(w.KV.GT)
